@@ -56,7 +56,10 @@ cls(
         ("HTTPStream.inv.disc", "self.g_disc == (1 if (self.closed and self.g_app_started) else 0)", "C03"),
         ("HTTPStream.inv.started", "implies(self.g_app_started, has(self, 'scope') and has(self, 'start_time'))", "C04"),
         # exactly one access record, written when the response completes or the stream closes
-        ("HTTPStream.inv.access", "self.g_access == (1 if (self.state == ASGIHTTPState.CLOSED or self.closed) else 0)", "C03"),
+        # (two clauses, so that finding F3c -- a *second* record -- is recorded against the upper bound
+        # only and a record that goes missing is still reported)
+        ("HTTPStream.inv.access.written", "(self.g_access >= 1) == (self.state == ASGIHTTPState.CLOSED or self.closed)", "C03"),
+        ("HTTPStream.inv.access", "self.g_access <= 1", "C03"),
         ("HTTPStream.inv.spawn-once", "self.g_spawned == (1 if self.g_app_started else 0)", "C01"),
         ("HTTPStream.inv.response", "implies(self.state in (ASGIHTTPState.RESPONSE, ASGIHTTPState.TRAILERS), has(self, 'response') and self.g_app_started)", "C12"),
     ],
